@@ -1,0 +1,47 @@
+//go:build verif
+
+// Contracts for package keys, read by the govc verifier in /verif (comment-only).
+
+package keys
+
+//@ import "math/big"
+//@ import "crypto/ecdsa"
+
+// Abstract cryptography: SigOK is, by definition, what ecdsa.Verify computes from the values of its
+// arguments; UnmX/UnmY what elliptic.Unmarshal returns; Parse36 what big.Int.SetString(_, 36) parses.
+//@ ghost field *big.Int bigval int
+//@ ghost func SigOK(x int, y int, digest []byte, r int, s int) bool
+//@ ghost func UnmX(pub []byte) int
+//@ ghost func UnmY(pub []byte) int
+//@ ghost func UnmOK(pub []byte) bool
+//@ ghost func Parse36(s string) int
+//@ ghost func Parse36OK(s string) bool
+//@ ghost func SplitBar(sig string) []string
+//@ ghost func KeyID(pub []byte) uint32
+
+// SigWellFormed: the string splits into exactly two base-36 integers.
+//@ ghost func SigWellFormed(sig string) bool { return len(SplitBar(sig)) == 2 && Parse36OK(SplitBar(sig)[0]) && Parse36OK(SplitBar(sig)[1]) }
+// SigValid: the signature string verifies for the public-key bytes over the digest.
+//@ ghost func SigValid(pub []byte, digest []byte, sig string) bool { return len(pub) > 0 && UnmOK(pub) && SigWellFormed(sig) && SigOK(UnmX(pub), UnmY(pub), digest, Parse36(SplitBar(sig)[0]), Parse36(SplitBar(sig)[1])) }
+
+//@ func Verify(pub *ecdsa.PublicKey, data []byte, r, s *big.Int) bool
+//@   safety on
+//@   modifies nothing
+//@   ensures[def] ret0 ==> pub != nil && pub.X != nil && pub.Y != nil && r != nil && s != nil && SigOK(g_bigval(pub.X), g_bigval(pub.Y), data, g_bigval(r), g_bigval(s))
+
+//@ func DecodeSignature(sig string) (r, s *big.Int, err error)
+//@   safety on
+//@   modifies nothing
+//@   ensures[nonnil] err == nil ==> r != nil && s != nil
+//@   ensures[value]  err == nil ==> SigWellFormed(sig) && g_bigval(r) == Parse36(SplitBar(sig)[0]) && g_bigval(s) == Parse36(SplitBar(sig)[1])
+
+//@ func ToPublicKey(pub []byte) *ecdsa.PublicKey
+//@   safety on
+//@   modifies nothing
+//@   ensures[empty]  len(pub) == 0 ==> ret0 == nil
+//@   ensures[value]  ret0 != nil && ret0.X != nil ==> len(pub) > 0 && UnmOK(pub) && g_bigval(ret0.X) == UnmX(pub) && g_bigval(ret0.Y) == UnmY(pub)
+
+//@ func PublicKeyID(pubBytes []byte) uint32
+//@   trusted definition of KeyID: FNV-1a hash of the key bytes
+//@   modifies nothing
+//@   ensures[def] ret0 == KeyID(pubBytes)
